@@ -17,6 +17,11 @@ sys.path.insert(0, HERE)
 os.chdir(HERE)
 os.environ.setdefault('SCMO_VERIF', '1')
 
+from pyvc.loader import REPO   # noqa: E402
+if REPO not in sys.path:
+    sys.path.insert(0, REPO)       # replays import the tree the VCs came from (SCMO_REPO, default /repo)
+OUT = os.environ.get('VERIF_OUT', HERE)      # where evidence/ and replays/ are written (default: /verif itself)
+
 from pyvc import contract as C   # noqa: E402
 from pyvc.units import Lemma, Bounded, run_unit   # noqa: E402
 
@@ -214,8 +219,8 @@ def main(argv):
         'wall_s': round(time.time() - t0, 2),
         'violations': len(violations),
     }
-    os.makedirs(os.path.join(HERE, 'evidence'), exist_ok=True)
-    with open(os.path.join(HERE, 'evidence', prop + '.json'), 'w') as f:
+    os.makedirs(os.path.join(OUT, 'evidence'), exist_ok=True)
+    with open(os.path.join(OUT, 'evidence', prop + '.json'), 'w') as f:
         json.dump(ev, f, indent=1, default=str)
     for line in known_lines:
         print(line)
@@ -238,7 +243,7 @@ def main(argv):
 
 
 def write_replay(prop, ob, rp, unit):
-    d = os.path.join(HERE, 'replays', prop)
+    d = os.path.join(OUT, 'replays', prop)
     os.makedirs(d, exist_ok=True)
     name = ob['id'].replace('/', '__').replace(' ', '_')[:150] + '.json'
     path = os.path.join('replays', prop, name)
@@ -248,7 +253,7 @@ def write_replay(prop, ob, rp, unit):
            'target': getattr(unit, 'target', None), 'solver': {'verdict': ob['result'], 'backend': ob.get('backend'),
                                                                 'counter_model': cex},
            'replay': rp}
-    with open(os.path.join(HERE, path), 'w') as f:
+    with open(os.path.join(OUT, path), 'w') as f:
         json.dump(rec, f, indent=1, default=str)
     return path
 
